@@ -18,7 +18,7 @@ import logging
 import z3
 
 from .lib import *  # noqa: F401,F403
-from .lib import uf, function, method, METHODS, FUNCTIONS, CLASS_MODELS, _S, _I, bytes_range
+from .lib import uf, function, method, METHODS, FUNCTIONS, CLASS_MODELS, _S, _I, bytes_range, UF_ORACLES, exc_obj_from
 from .core import _b, _z, _zi
 from . import interp as I
 
@@ -42,6 +42,22 @@ for _f in (logging.debug, logging.info, logging.warning, logging.error, logging.
 # rsplit(sep, 1)
 
 
+def _flatten_concat(t):
+    if z3.is_app(t) and t.decl().kind() == z3.Z3_OP_SEQ_CONCAT:
+        out = []
+        for c in t.children():
+            out.extend(_flatten_concat(c))
+        return out
+    return [t]
+
+
+def _concat_terms(ts):
+    ts = [t for t in ts if not (z3.is_string_value(t) and str_value_to_pystr(t) == "")]
+    if not ts:
+        return z3.StringVal("")
+    return ts[0] if len(ts) == 1 else z3.Concat(*ts)
+
+
 def _rsplit(it, s, *a, **k):
     c = s.concrete()
     if c is not None and all(x.concrete() is not None for x in a):
@@ -54,6 +70,22 @@ def _rsplit(it, s, *a, **k):
         raise Unsupported("rsplit of a symbolic string is modelled for a concrete 1-character separator and maxsplit=1 only")
     T = type(s)
     sept = a[0].t
+    # exact structural case: s is a concatenation p0 ++ ... ++ pn in which the last piece that can contain sep is a literal
+    # (every later piece provably does not contain sep): split inside that literal.
+    pieces = _flatten_concat(simp(s.t))
+    if len(pieces) > 1:
+        for k in range(len(pieces) - 1, -1, -1):
+            p = pieces[k]
+            if z3.is_string_value(p):
+                lit = str_value_to_pystr(p)
+                j = lit.rfind(sep if isinstance(sep, str) else sep.decode("latin-1"))
+                if j < 0:
+                    continue
+                head = _concat_terms(pieces[:k] + [z3.StringVal(lit[:j])])
+                tail = _concat_terms([z3.StringVal(lit[j + 1:])] + pieces[k + 1:])
+                return SList([T(simp(head)), T(simp(tail))])
+            if it.ex.feasible(z3.Contains(p, sept)):
+                break  # cannot exclude sep in a later symbolic piece: use the general model
     if it.branch(SBool(z3.Contains(s.t, sept))):
         # s == head + sep + tail with sep not in tail  (unique decomposition for a 1-character separator)
         head = it.fresh("bytes" if T is SBytes else "str", "rsplit_head")
@@ -86,6 +118,20 @@ def ip_value_t(s):
 def ip_pred_t(name, version, value):
     """uninterpreted classification predicate `name` in {is_loopback, is_private, is_global} of an IPv<version> value"""
     return uf(f"ip{version}_{name}", _I, _B)(value)
+
+
+def _real_ip(s):
+    try:
+        return ipaddress.ip_address(s)
+    except ValueError:
+        return None
+
+
+UF_ORACLES["ip_version"] = lambda s: (_real_ip(s).version if _real_ip(s) is not None else 0)
+UF_ORACLES["ip_value"] = lambda s: (int(_real_ip(s)) if _real_ip(s) is not None else 0)
+for _p in ("is_loopback", "is_private", "is_global"):
+    UF_ORACLES[f"ip4_{_p}"] = (lambda v, _p=_p: bool(getattr(ipaddress.IPv4Address(v), _p)) if 0 <= v < TWO32 else False)
+    UF_ORACLES[f"ip6_{_p}"] = (lambda v, _p=_p: bool(getattr(ipaddress.IPv6Address(v), _p)) if 0 <= v < TWO128 else False)
 
 
 def mk_ip_obj(it, version, value):
